@@ -4,9 +4,9 @@ from .core import BASE_TRUST, LEAN, Problem
 
 META = {
     "category": "proof",
-    "text": "Lean 4 theorems: each parallel shape of lib/query (slot-wise Run callbacks, per-worker lists concatenated in worker order for filter/join, per-worker key maps merged for GROUP BY) equals a sequential specification for EVERY cutting of the record range into contiguous chunks, hence is independent of --cpu and of the schedule; the real cutting function RecordRange is regenerated from the source and proved to tile [0,len) in order (C13's recordRange_tiles); the slot bookkeeping that decides the worker number (AssignRoutineNumber, Release, Done, NewGoroutineTaskManager's literal, Flags.SetCPU) is regenerated too and proved: 1 <= n <= --cpu in every reachable state, shared count = sum of outstanding slots over every history (never negative, nothing leaks), single worker below the threshold, and end to end the assigned workers' ranges tile [0,len) (assigned_ranges_tile). Tied to /repo by (a) the regenerated definitions + a model/impl comparison of worker numbers, ranges, slot histories (new/done sequences) and SetCPU, (b) a direct law check on the implementation: the same program run at --cpu 1,2,3,4,8,16, twice each, on tables of 80k-1/80k/80k+1 rows must give identical result rows, order and written file bytes (22+ query shapes incl. joins driven by the short and by the long table, multi-analytic queries, user-defined aggregates / functions; 6 DML programs); (c) the clause pipeline over a formula table of 20-40k rows (every stage cut: WHERE, GROUP BY, HAVING, DISTINCT, ORDER BY, OFFSET, LIMIT rows / PERCENT / WITH TIES / FETCH, alone, combined and through derived tables) at every --cpu value twice against BOTH Model/Pipeline.runImpl (op c12.pipe: the driver rebuilds the table from four numbers and runs the same stage list under cuts of its own) and the slices the harness takes from the table itself (law stage_result_differs_from_table_slice); (d) session flags whose handling keeps state or caches (--datetime-format lists incl. mutually ambiguous formats, --timezone, --strict-equal, --ansi-quotes, --without-null, @@ flags SET / ADDed / REMOVEd between the statements) over a table of dates in many spellings: value.StrToTime under a format list against Model/ParseTimeUser (op c12.strtotime: formats in the given order, first match wins, then the built-in spellings), every program at every --cpu value twice, and law value_depends_on_other_rows - every row of a row-wise select list has the value the same program gives a table of that row ALONE in a fresh session (single rows taken in two orders: value_depends_on_history), GROUP BY over a converted key agrees with the grouping made from the single-row keys - a reference that does not depend on the evaluation order, valid at --cpu 1 too; (e) THE STEP FROM THE GO CLOSURES TO THE SHAPES IS REGENERATED AND AN OBLIGATION (extract/shapefacts, go/ast + go/types, fails closed): every fan-out of lib/query to goroutines (GoroutineTaskManager.Run callbacks, EvaluateSequentially callbacks, `go f(i)` closures, the two drivers, the producer / consumer pairs of the loaders; any other `go` statement makes the extractor fail) and, for every variable a worker shares and WRITES, the class of the write (slot = indexed by the own record index, slotAffine / slotVia, perWorker = indexed by the worker number, singleWriter, role, chan, guardedAppend / Assign / MapInsert / Count under a mutex, atomic, pool, syncMap, extCall, other; local aliases, methods that write through their receiver and captured closures are followed), how the per-worker pieces are used after the join, reads of a slot-written variable at a foreign index, the text of MergeRecordSetList and of the two driver loops, every range over a map in lib/query, which scope constructor every worker calls and where those constructors take the records of the new scope from (with C08's extract/copyfacts: gen_worker_scopes_have_own_caches - the FieldIndexCache of a worker's scope is a copy whose map and both slices are newly made). Model/Shapes gives each class its meaning over ANY scheduler interleaving; Props/C12Shapes proves every meaning but the ordered one independent of the schedule and of the cut (by reduction to the shape theorems), proves that a list appended to under a mutex IS the schedule, and kernel-evaluates gen_worker_shapes_ok over the regenerated facts with a reviewed, pinned exception table (13 entries, each with the reason why the order cannot reach a result): a NEW guarded append / map insert / atomic / pool / sync.Map, a write at a foreign index, a new map range, a changed merge or driver loop is a broken obligation whose replay names the fact and its source position; (f) STATE SHARED WITHOUT BEING CAPTURED: the same extractor takes a census of every write (assignment, ++/--, atomic add / store, map insert, delete, append, sync.Map / atomic.Value store) to a field of query.Transaction, query.Session, option.Flags and to package-level variables of lib/query, lib/value, lib/option, with the enclosing function and whether a worker body can reach it (static call graph over the three packages: direct calls, interface methods by name and arity, function values by signature); Props/C12Session gives a limit-checked counter its meaning over the traces (shared_counter_limit_depends_on_schedule: one session-wide counter reset at the start of each recursion, two workers of depth d, d <= L < 2d - sequentially they pass, started together they fail; per_evaluation_counter_indep_of_schedule / _is_own_depth: a counter allocated per evaluation compares the worker's OWN depth with the limit under every schedule) and kernel-evaluates gen_no_session_counter_written_by_workers (no reachable counter, the three reviewed constant stores) and gen_session_writes_of_workers_are_the_reviewed_ones (51 reachable writes pinned: statement-only / once / flag); dynamic: per-record sub-queries containing WITH RECURSIVE of depth 3-8 under --limit-recursion just above the depth at every --cpu value twice (law cpu_dependent_output)",
+    "text": "Lean 4 theorems: each parallel shape of lib/query (slot-wise Run callbacks, per-worker lists concatenated in worker order for filter/join, per-worker key maps merged for GROUP BY) equals a sequential specification for EVERY cutting of the record range into contiguous chunks, hence is independent of --cpu and of the schedule; the real cutting function RecordRange is regenerated from the source and proved to tile [0,len) in order (C13's recordRange_tiles); the slot bookkeeping that decides the worker number (AssignRoutineNumber, Release, Done, NewGoroutineTaskManager's literal, Flags.SetCPU) is regenerated too and proved: 1 <= n <= --cpu in every reachable state, shared count = sum of outstanding slots over every history (never negative, nothing leaks), single worker below the threshold, and end to end the assigned workers' ranges tile [0,len) (assigned_ranges_tile). Tied to /repo by (a) the regenerated definitions + a model/impl comparison of worker numbers, ranges, slot histories (new/done sequences) and SetCPU, (b) a direct law check on the implementation: the same program run at --cpu 1,2,3,4,8,16, twice each, on tables of 80k-1/80k/80k+1 rows must give identical result rows, order and written file bytes (22+ query shapes incl. joins driven by the short and by the long table, multi-analytic queries, user-defined aggregates / functions; 6 DML programs); (c) the clause pipeline over a formula table of 20-40k rows (every stage cut: WHERE, GROUP BY, HAVING, DISTINCT, ORDER BY, OFFSET, LIMIT rows / PERCENT / WITH TIES / FETCH, alone, combined and through derived tables) at every --cpu value twice against BOTH Model/Pipeline.runImpl (op c12.pipe: the driver rebuilds the table from four numbers and runs the same stage list under cuts of its own) and the slices the harness takes from the table itself (law stage_result_differs_from_table_slice); (d) session flags whose handling keeps state or caches (--datetime-format lists incl. mutually ambiguous formats, --timezone, --strict-equal, --ansi-quotes, --without-null, @@ flags SET / ADDed / REMOVEd between the statements) over a table of dates in many spellings: value.StrToTime under a format list against Model/ParseTimeUser (op c12.strtotime: formats in the given order, first match wins, then the built-in spellings), every program at every --cpu value twice, and law value_depends_on_other_rows - every row of a row-wise select list has the value the same program gives a table of that row ALONE in a fresh session (single rows taken in two orders: value_depends_on_history), GROUP BY over a converted key agrees with the grouping made from the single-row keys - a reference that does not depend on the evaluation order, valid at --cpu 1 too; (e) THE STEP FROM THE GO CLOSURES TO THE SHAPES IS REGENERATED AND AN OBLIGATION (extract/shapefacts, go/ast + go/types, fails closed): every fan-out of lib/query to goroutines (GoroutineTaskManager.Run callbacks, EvaluateSequentially callbacks, `go f(i)` closures, the two drivers, the producer / consumer pairs of the loaders; any other `go` statement makes the extractor fail) and, for every variable a worker shares and WRITES, the class of the write (slot = indexed by the own record index, slotAffine / slotVia, perWorker = indexed by the worker number, singleWriter, role, chan, guardedAppend / Assign / MapInsert / Count under a mutex, atomic, pool, syncMap, extCall, other; local aliases, methods that write through their receiver and captured closures are followed), how the per-worker pieces are used after the join, reads of a slot-written variable at a foreign index, the text of MergeRecordSetList and of the two driver loops, every range over a map in lib/query, which scope constructor every worker calls and where those constructors take the records of the new scope from (with C08's extract/copyfacts: gen_worker_scopes_have_own_caches - the FieldIndexCache of a worker's scope is a copy whose map and both slices are newly made). Model/Shapes gives each class its meaning over ANY scheduler interleaving; Props/C12Shapes proves every meaning but the ordered one independent of the schedule and of the cut (by reduction to the shape theorems), proves that a list appended to under a mutex IS the schedule, and kernel-evaluates gen_worker_shapes_ok over the regenerated facts with a reviewed, pinned exception table (13 entries, each with the reason why the order cannot reach a result): a NEW guarded append / map insert / atomic / pool / sync.Map, a write at a foreign index, a new map range, a changed merge or driver loop is a broken obligation whose replay names the fact and its source position; (f) STATE SHARED WITHOUT BEING CAPTURED: the same extractor takes a census of every write (assignment, ++/--, atomic add / store, map insert, delete, append, sync.Map / atomic.Value store) to a field of query.Transaction, query.Session, option.Flags and to package-level variables of lib/query, lib/value, lib/option, with the enclosing function and whether a worker body can reach it (static call graph over the three packages: direct calls, interface methods by name and arity, function values by signature); Props/C12Session gives a limit-checked counter its meaning over the traces (shared_counter_limit_depends_on_schedule: one session-wide counter reset at the start of each recursion, two workers of depth d, d <= L < 2d - sequentially they pass, started together they fail; per_evaluation_counter_indep_of_schedule / _is_own_depth: a counter allocated per evaluation compares the worker's OWN depth with the limit under every schedule) and kernel-evaluates gen_no_session_counter_written_by_workers (no reachable counter, the three reviewed constant stores) and gen_session_writes_of_workers_are_the_reviewed_ones (51 reachable writes pinned: statement-only / once / flag); dynamic: per-record sub-queries containing WITH RECURSIVE of depth 3-8 under --limit-recursion just above the depth at every --cpu value twice (law cpu_dependent_output); (g) OBJECTS WITH HIDDEN STATE REACHED THROUGH SESSION-WIDE STATE (extract/shapefacts/stateful.go): census of every use - call of a state-changing method, or passing the object to a function - of a value of a reviewed list of stateful library types (os.File, bufio Reader / Scanner / Writer, the csv / fixedlen / ltsv / json readers and writers of go-text, encoding/csv, encoding/json, hash.Hash, rand.Rand, strings.Builder / Reader, bytes.Buffer / Reader, x/text transformers / cases.Caser / encoders, time.Timer) that derives from a Transaction / Session / Flags / file.Container / ViewMap or a package-level variable (followed through local variables; objects only made by New* / Create* / Open* in the same function are not shared), with the mutexes held at that point (Lock / Unlock / defer Unlock in source order, an Unlock inside a branch counts from there on) and reachability from a worker body; Model/SharedCursor gives one handle its meaning over the traces (shared_file_position_depends_on_schedule: two workers that seek and read twice - under one schedule worker 0 reads the file, under another the first element twice; locked_use_is_sequential: a use nobody interrupts reads what a handle of its own gives, whatever happened before and after) and Props/C12Stateful kernel-evaluates gen_shared_stateful_objects_used_under_lock (every reachable use holds a mutex, the loader's uses all hold Transaction.viewLoadingMutex, the 6 reachable uses are the reviewed ones); dynamic: a file held open by the transaction (SELECT ... FOR UPDATE / an UPDATE matching nothing) of 12-16 KB read as CSV_INLINE / JSON_INLINE / INLINE:: inside per-record scalar / EXISTS sub-queries and LATERAL joins over 400-560 outer rows at --cpu 1, 2, 4, 8 twice each (law cpu_dependent_output, error number compared, message reported)",
     "design_ref": "DESIGN.md section 5, C12",
-    "note": "a WHOLE query: Model/Pipeline.lean composes the shapes into the clause pipeline of a SELECT (WHERE, GROUP BY, HAVING, select list, ORDER BY, OFFSET, LIMIT, Fix) with an arbitrary cut at every stage; Props/C12Pipe: pipeline_eq_spec / pipeline_indep_of_cuts (any two runs, whatever cuts each stage got, return the same rows in the same order), the stage order and the primitive under every View method regenerated from query.go / view.go (extract/pipefacts: gen_clause_order, gen_stage_shapes); OFFSET / LIMIT as concrete stages (offsetStage, limitStage, limitPercentStage, limitTiesStage; pipeline_offset_limit_spec: = ((rows.filter p).drop n).take k under every cut) and the in-place move of View.Offset as a write schedule (Model/Shift: shift_sequential_spec - one worker in ascending order leaves exactly drop n; shift_two_workers_counterexample - an interleaving of two chunks loses a row, which is why gen_offset_shift_is_ascending_loop pins the regenerated loop). Props/C12Time: value.StrToTime with the process-wide format cache threaded through as state (Model/ParseTimeUser) returns what the cache-free function returns for every reachable cache (strToTime_state_indep), so a column is a map (column_is_map), a row's value does not depend on the rows around it nor on what was converted before (row_value_indep_of_other_rows, column_order_irrelevant), the first fitting format wins (first_fitting_format_wins); the loop over the formats, the package-level state StrToTime touches and the fields / Get of the cache are regenerated from lib/value/conv.go (extract/timefacts: gen_user_format_loop, gen_strtotime_state, gen_format_cache_is_memo). trusted: Lean kernel; harness; the Go scheduler itself is outside the model, which is why the chunking/schedule is universally quantified in the theorems rather than sampled; Props/C12Shapes (worker shapes as an obligation): Interleave = every trace a scheduler can produce from the workers' index lists; slot_indep_of_cut, run_fills_slots (n workers over the real RecordRange under any schedule fill exactly slots 0..len-1), pieces_are_chunks / pieces_indep_of_cut with filter_ / join_ / group_pieces_indep (reduction to filter_chunks_indep, join_chunks_indep, group_indep_of_cut), accum_indep_of_cut (+ counter / flag set / single writer commute), error_flag_indep_of_cut and first_error_value_depends_on_schedule, role_indep_of_schedule, sorted_append_indep_of_cut, guarded_append_depends_on_schedule, fanout_schedule_independent (a fan-out all of whose facts are of independent kinds has the same shared state after the join for every schedule and every cut), gen_worker_shapes_ok, gen_reviewed_exceptions_exact, gen_pieces_combined_in_worker_order, gen_no_cross_reads, gen_worker_scopes_have_own_caches, gen_driver_loops, gen_workers_loop_over_own_range, gen_merge_record_set_list + merge_model_is_flatten, gen_map_ranges_are_the_reviewed_ones. Props/C12Session: per_evaluation_counter_eq_seq, per_evaluation_counter_indep_of_schedule, per_evaluation_counter_is_own_depth, shared_counter_limit_depends_on_schedule, gen_no_session_counter_written_by_workers, gen_session_writes_of_workers_are_the_reviewed_ones, reviewed_session_classes. still by reading: the call graph's treatment of function values and interface methods (over-approximated by signature / name), writes made through methods of the field's own type (ViewMap, the datetime-format cache: C13 / timefacts), that a statement of a given class behaves as the class's meaning says (one assignment at a time, no longer a whole closure), the 13 reviewed reasons, that the VALUE a worker computes is a function of its own index (writes made inside callees such as Evaluate are C13's interprocedural facts and the multi---cpu runs), the extractor itself",
+    "note": "a WHOLE query: Model/Pipeline.lean composes the shapes into the clause pipeline of a SELECT (WHERE, GROUP BY, HAVING, select list, ORDER BY, OFFSET, LIMIT, Fix) with an arbitrary cut at every stage; Props/C12Pipe: pipeline_eq_spec / pipeline_indep_of_cuts (any two runs, whatever cuts each stage got, return the same rows in the same order), the stage order and the primitive under every View method regenerated from query.go / view.go (extract/pipefacts: gen_clause_order, gen_stage_shapes); OFFSET / LIMIT as concrete stages (offsetStage, limitStage, limitPercentStage, limitTiesStage; pipeline_offset_limit_spec: = ((rows.filter p).drop n).take k under every cut) and the in-place move of View.Offset as a write schedule (Model/Shift: shift_sequential_spec - one worker in ascending order leaves exactly drop n; shift_two_workers_counterexample - an interleaving of two chunks loses a row, which is why gen_offset_shift_is_ascending_loop pins the regenerated loop). Props/C12Time: value.StrToTime with the process-wide format cache threaded through as state (Model/ParseTimeUser) returns what the cache-free function returns for every reachable cache (strToTime_state_indep), so a column is a map (column_is_map), a row's value does not depend on the rows around it nor on what was converted before (row_value_indep_of_other_rows, column_order_irrelevant), the first fitting format wins (first_fitting_format_wins); the loop over the formats, the package-level state StrToTime touches and the fields / Get of the cache are regenerated from lib/value/conv.go (extract/timefacts: gen_user_format_loop, gen_strtotime_state, gen_format_cache_is_memo). trusted: Lean kernel; harness; the Go scheduler itself is outside the model, which is why the chunking/schedule is universally quantified in the theorems rather than sampled; Props/C12Shapes (worker shapes as an obligation): Interleave = every trace a scheduler can produce from the workers' index lists; slot_indep_of_cut, run_fills_slots (n workers over the real RecordRange under any schedule fill exactly slots 0..len-1), pieces_are_chunks / pieces_indep_of_cut with filter_ / join_ / group_pieces_indep (reduction to filter_chunks_indep, join_chunks_indep, group_indep_of_cut), accum_indep_of_cut (+ counter / flag set / single writer commute), error_flag_indep_of_cut and first_error_value_depends_on_schedule, role_indep_of_schedule, sorted_append_indep_of_cut, guarded_append_depends_on_schedule, fanout_schedule_independent (a fan-out all of whose facts are of independent kinds has the same shared state after the join for every schedule and every cut), gen_worker_shapes_ok, gen_reviewed_exceptions_exact, gen_pieces_combined_in_worker_order, gen_no_cross_reads, gen_worker_scopes_have_own_caches, gen_driver_loops, gen_workers_loop_over_own_range, gen_merge_record_set_list + merge_model_is_flatten, gen_map_ranges_are_the_reviewed_ones. Props/C12Session: per_evaluation_counter_eq_seq, per_evaluation_counter_indep_of_schedule, per_evaluation_counter_is_own_depth, shared_counter_limit_depends_on_schedule, gen_no_session_counter_written_by_workers, gen_session_writes_of_workers_are_the_reviewed_ones, reviewed_session_classes. Props/C12Stateful: locked_use_is_sequential, shared_file_position_depends_on_schedule, gen_shared_stateful_objects_used_under_lock. still by reading: the list of stateful types and of creator names in stateful.go, values that reach a stateful object through a plain function result or a struct field of a non-session type (not followed), that a callee handed the object uses it only during the call, the call graph's treatment of function values and interface methods (over-approximated by signature / name), writes made through methods of the field's own type (ViewMap, the datetime-format cache: C13 / timefacts), that a statement of a given class behaves as the class's meaning says (one assignment at a time, no longer a whole closure), the 13 reviewed reasons, that the VALUE a worker computes is a function of its own index (writes made inside callees such as Evaluate are C13's interprocedural facts and the multi---cpu runs), the extractor itself",
     "technique": "Lean 4 machine-checked proof (chunk-independence / refinement to a sequential spec) + regenerated RecordRange and slot bookkeeping + worker-shape facts regenerated from the closures of lib/query and kernel-evaluated against a pinned exception table + multi---cpu differential runs of the real implementation",
 }
 
@@ -27,7 +27,8 @@ def explain_shapes(run):
     if not broken & {"gen_worker_shapes_ok", "gen_reviewed_exceptions_exact", "gen_no_cross_reads", "gen_map_ranges_are_the_reviewed_ones",
                      "gen_pieces_combined_in_worker_order", "gen_workers_loop_over_own_range", "gen_merge_record_set_list", "gen_driver_loops",
                      "gen_fanout_kinds_known", "gen_worker_scopes_have_own_caches",
-                     "gen_no_session_counter_written_by_workers", "gen_session_writes_of_workers_are_the_reviewed_ones"}:
+                     "gen_no_session_counter_written_by_workers", "gen_session_writes_of_workers_are_the_reviewed_ones",
+                     "gen_shared_stateful_objects_used_under_lock"}:
         return
     gen = (LEAN / "Csvq/Gen/ShapeFacts.lean").read_text()
     props = (LEAN / "Csvq/Props/C12Shapes.lean").read_text()  # (the scope-copy obligation is in Props/C12ScopeCopies.lean)
@@ -68,6 +69,24 @@ def explain_shapes(run):
                                             "function": fn, "target": tg, "operation": op, "where": ssites.get(fn + " " + tg, "")}, signature="shape-session:%s:%s:%s" % (fn, tg, op)))
         for r in sorted(rs - got):
             run.problems.append(Problem("build", "shape-fact", {"no_longer_checks": "the reviewed session write %s / %s / %s is no longer reachable from a worker: remove it from the table" % r}, signature="shape-session-gone:%s:%s:%s" % r))
+    if "gen_shared_stateful_objects_used_under_lock" in broken:
+        st = (LEAN / "Csvq/Props/C12Stateful.lean").read_text()
+        rs = set(re.findall(r'^\s*\("([^"]*)", "([^"]*)", "([^"]*)", "([^"]*)", "\w+"\)', st.split("def reviewedStatefulUses")[1].split("\n]")[0], re.M))
+        usites = dict(x.split(": ", 1) for x in re.findall(r'"([^"]*)"', gen.split("def statefulUseSites")[1].split("\n")[0]) if ": " in x)
+        got = set()
+        for m in re.finditer(r'^\s*\("([^"]*)", "([^"]*)", "([^"]*)", "([^"]*)", "([^"]*)", (true|false)\)', gen.split("def statefulUses")[1].split("\n]")[0], re.M):
+            fn, ty, rv, op, held, rch = m.groups()
+            if rch != "true":
+                continue
+            got.add((fn, ty, op, held))
+            if (fn, ty, op, held) not in rs:
+                why = "holds no mutex there" if not held else "holds %s there, which is not what the reviewed table says" % held
+                run.problems.append(Problem("build", "shape-fact", {"no_longer_checks": "%s, which the workers of a fan-out reach through Evaluate, uses the %s %s that it got from session-wide state (%s) and %s: the object has ONE hidden state (file position / buffer) for all workers, what a worker reads depends on the schedule" % (fn, ty, rv, op, why),
+                                            "function": fn, "type": ty, "object": rv, "operation": op, "mutexes_held": held, "where": usites.get("%s %s %s" % (fn, rv, op), "")}, signature="shape-stateful:%s:%s:%s" % (fn, ty, op)))
+        for r in sorted(rs - got):
+            if any(g[:3] == r[:3] for g in got):  # still there, under other mutexes: reported above
+                continue
+            run.problems.append(Problem("build", "shape-fact", {"no_longer_checks": "the reviewed use %s / %s / %s under %s is no longer in the source or no longer reachable from a worker: remove it from the table" % r}, signature="shape-stateful-gone:%s:%s:%s:%s" % r))
     if "gen_worker_scopes_have_own_caches" in broken:
         cf = (LEAN / "Csvq/Gen/CopyFacts.lean").read_text()
         for ln in cf.splitlines():
@@ -91,7 +110,7 @@ def run(run):
     # the shape obligations are built module by module: when a regenerated fact breaks one of them, the theorems of the
     # other modules (which do not import it) are still checked and counted
     names = []
-    for group in (["Csvq.Props.C12Shapes"], ["Csvq.Props.C12ScopeCopies"], ["Csvq.Props.C12Session"], ["Csvq.Props.C12", "Csvq.Props.C12Pipe", "Csvq.Props.C12Time"]):
+    for group in (["Csvq.Props.C12Shapes"], ["Csvq.Props.C12ScopeCopies"], ["Csvq.Props.C12Session"], ["Csvq.Props.C12Stateful"], ["Csvq.Props.C12", "Csvq.Props.C12Pipe", "Csvq.Props.C12Time"]):
         run.obligations_for(group)
         names += run.cov["obligation_names"]
     run.cov["obligation_names"] = names
